@@ -12,6 +12,14 @@ Contract checked at run time on the REAL functions:
   K4 (end to end, the `Request` object built directly on an environ, no routing): the same bytes, twice,
       wsgi.input replaced, stream consumed <= max(CL,0), for every REQUEST_METHOD above and for an
       environ without REQUEST_METHOD.
+  K5 (end to end, `Request.copy()`; a copy of the request is still "the request body presented to the application"):
+      the handler reads request.body, then request.copy().body, then the body of a copy of that copy, then request.body
+      again (order 'orig-first'); or it takes the copy before anything was accessed and reads only through the copy and
+      the copy's copy (order 'copy-first').  Every body presented is exactly the expected bytes (K5.original / K5.copy_exact),
+      a copy is not refused where the original was served (K5.copy_refused), and the server stream is never consumed
+      beyond Content-Length by all of them together (K5.read_beyond_content_length).  With max_body_size below the body
+      length the original is refused; the handler swallows that refusal and asks the copies: they are refused too or
+      present the exact body -- never bytes from the middle of the stream -- and nothing is read beyond Content-Length.
 """
 import io
 import itertools
@@ -25,7 +33,11 @@ BOUND = ('bodies of length 0..9 (quick) / 0..12 (thorough) over a 3-letter alpha
          'Request object): bodies of length 0/1/4/9 x CL in {-1,0,n-1,n,n+2} x max_memfile_size 1/3/16 x 4 scripts x 3 tails, '
          'for POST through the application, and x REQUEST_METHOD in {GET,HEAD,POST,PUT,DELETE,PATCH,OPTIONS,get,head} '
          'through the application (route registered for that method) and through Request(environ) directly, the latter '
-         'also with REQUEST_METHOD absent; the random cases draw the method from the same set')
+         'also with REQUEST_METHOD absent; the random cases draw the method from the same set; '
+         'Request.copy(): payload of 1/4/9 bytes followed by 4 bytes of the next request x CL in {0,n,n+2,n+6} x max_memfile_size '
+         '1/3/16 x 4 scripts x 2 tails x {application handler, bare Request} x order {original read first then copy, copy of the '
+         'copy, original again; copy taken before any access and only the copies read} x max_body_size {none, 2 = refusal '
+         'swallowed by the handler}')
 NONTRIVIAL_RULE = 'distinct (kind, body, CL, buffer, script); non-trivial = body non-empty and CL > 0'
 
 
@@ -35,6 +47,20 @@ def exhaustive(tier):
 
 def nontrivial(case):
     return len(case['data']) > 0 and case['cl'] > 0
+
+
+def gen_copy_cases(tier):
+    for n in (1, 4, 9):
+        data = bytes((97 + i) for i in range(n)) + b'NEXT'
+        for cl in (0, n, n + 2, n + 6):
+            for buff in (1, 3, 16):
+                for script in ((), (1,), (2, 1), (1, 1, 1)):
+                    for tail in (0, 1) if tier == 'quick' else (0, 1, 2):
+                        for level in ('app', 'req'):
+                            for order in ('orig-first', 'copy-first'):
+                                for max_body in (None, 2):
+                                    yield dict(kind='copy', level=level, order=order, max_body=max_body, data=data, cl=cl,
+                                               buff=buff, script=list(script), tail=tail)
 
 
 def gen_cases(tier, seed):
@@ -63,6 +89,8 @@ def gen_cases(tier, seed):
                 for script in ((), (1,), (2, 1), (1, 1, 1)):
                     for tail in (0, 1, 2):
                         yield dict(kind='app', data=data, cl=cl, buff=buff, script=list(script), tail=tail)
+    for c in gen_copy_cases(tier):
+        yield c
     rnd = random.Random(seed)
     for _ in range(300 if tier == 'quick' else 3000):
         n = rnd.randrange(0, 400)
@@ -138,6 +166,8 @@ def run_case(case):
         if stream.consumed > max(cl, 0):
             return fail('K2.read_beyond_content_length', consumed=stream.consumed, cl=cl)
         return None
+    if case['kind'] == 'copy':
+        return run_copy(case, stream, exp)
     if case['kind'] == 'req':
         # the bare Request object on an environ (no routing), REQUEST_METHOD as given or absent
         from ombott.request_pkg.request import Request
@@ -178,4 +208,63 @@ def run_case(case):
         return fail('K3.input_replaced')
     if stream.consumed > max(cl, 0):
         return fail('K3.read_beyond_content_length', consumed=stream.consumed, cl=cl)
+    return None
+
+
+def run_copy(case, stream, exp):
+    """K5: the body seen through Request.copy() (after / instead of an access through the original)"""
+    import ombott
+    from ombott.request_pkg.request import Request
+    from ombott.request_pkg.errors import RequestError
+    cl, buff = case['cl'], case['buff']
+    cfg = {'max_memfile_size': buff, 'max_body_size': case['max_body']}
+    env = make_environ('/b', 'POST', stream=stream, content_length=cl)
+    outcomes = []
+
+    def access(name, req):
+        try:
+            b = req.body
+            outcomes.append((name, 'ok', b.read()))
+        except ombott.HTTPError as e:
+            outcomes.append((name, 'refused', e.status_code))
+        except RequestError as e:
+            outcomes.append((name, 'refused', type(e).__name__))
+
+    def play(req):
+        if case['order'] == 'orig-first':
+            access('original', req)
+            c = req.copy()
+            access('copy', c)
+            access('copy of copy', c.copy())
+            access('copy again', c)
+            access('original again', req)
+        else:
+            c = req.copy()
+            access('copy', c)
+            access('copy of copy', c.copy())
+            access('second copy', c.copy())
+        return 'ok'
+
+    if case['level'] == 'req':
+        try:
+            play(Request(env, config=cfg))
+        except Exception as e:  # noqa - recorded
+            return fail('K5.exception', exc=repr(e), outcomes=outcomes)
+    else:
+        app = ombott.Ombott(cfg)
+        app.route('/b', method='POST', callback=lambda: play(app.request))
+        res = serve(app, env)
+        if res.code != 200:
+            return fail('K5.status', status=res.status, errors=res.errors[-400:], outcomes=outcomes)
+    first = outcomes[0]
+    for name, what, val in outcomes:
+        if what == 'ok' and val != exp:
+            return fail('K5.original' if name.startswith('original') else 'K5.copy_exact', who=name, expected=exp, observed=val,
+                        outcomes=outcomes)
+        if what == 'refused' and first[1] == 'ok':
+            return fail('K5.copy_refused', who=name, outcomes=outcomes)
+        if what == 'refused' and not (case['max_body'] is not None and len(exp) > case['max_body']):
+            return fail('K5.refused_without_reason', who=name, outcomes=outcomes)
+    if stream.consumed > max(cl, 0):
+        return fail('K5.read_beyond_content_length', consumed=stream.consumed, cl=cl, outcomes=outcomes)
     return None
